@@ -13,7 +13,22 @@ class Spec:
         self.allsym = allsym
 
     def text(self):
-        return "%s.%s/%s/%d" % (self.name, self.ext, self.kind, self.length)
+        nm = self.name.label if isinstance(self.name, SymName) else self.name
+        return "%s.%s/%s/%d" % (nm, self.ext, self.kind, self.length)
+
+
+class SymName:
+    """a file name with ONE symbolic character (printable ASCII without the blank, $21..$7E) at position pos of base;
+    the solver ranges over the character (the reader's bytes->str conversion realises it, so the path tree has one
+    leaf per character and 'confirmed' means all 94 were explored)"""
+
+    def __init__(self, base, pos, lo=33, hi=126):
+        self.base, self.pos, self.lo, self.hi = base, pos, lo, hi
+        self.label = base[:pos] + "<?>" + base[pos + 1:]
+
+    def make(self, ctx, prefix):
+        c = ctx.int(prefix + "_ch%d" % self.pos, self.lo, self.hi)
+        return self.base[:self.pos] + chr(c) + self.base[self.pos + 1:]
 
 
 def sym_positions(length, allsym_limit):
@@ -62,10 +77,11 @@ def build(ctx, specs, prefix="f", allsym_limit=16, full_addr_index=0):
         gap = 0
         if s.kind == "sym":
             gap = ctx.int(p + "_gap", 0, 1) * 255      # a file read from a tape recorded with gaps carries $FF here
-        cf = CoCoFile(name=s.name, extension=s.ext, type=NumericValue(ft), data_type=NumericValue(dt),
+        name = s.name.make(ctx, p) if isinstance(s.name, SymName) else s.name
+        cf = CoCoFile(name=name, extension=s.ext, type=NumericValue(ft), data_type=NumericValue(dt),
                       load_addr=NumericValue(load), exec_addr=NumericValue(exe), data=data, gaps=NumericValue(gap))
         files.append(cf)
-        descs.append({"name": s.name, "ext": s.ext, "ftype": ft, "dtype": dt, "load": load, "exec": exe,
+        descs.append({"name": name, "ext": s.ext, "ftype": ft, "dtype": dt, "load": load, "exec": exe,
                       "data": list(data), "gap": gap})
     return files, descs
 
